@@ -9,4 +9,4 @@ Require Import Extraction ExtrOcamlBasic.
 Definition c20_sops (S : SOps) : T S := s0 S.
 
 Extraction "C20_model.ml" c20_sops init step spec_step views view_of live_count destroy_all
-  st_heap st_faults st_alog st_dlog st_pool.
+  st_heap st_faults st_alog st_dlog st_pool st_ctors.
